@@ -1,5 +1,80 @@
-import ErdosVerif.Model.TaskGraph
+import ErdosVerif.Lemmas.Frontier
+/-!
+# C18 — the scheduling frontier offers exactly the work that may be decided now
+Model: `Model/TaskGraph.lean` (`get_schedulable_tasks` selection loop `selectLoop`,
+`get_releasable_tasks`, `notify_task_completion`).
+`ect` is the `estimated_completion_time` map computed by the first two phases of
+`get_schedulable_tasks` (it depends on the random tape for the RANDOM branch
+policy but not on the lookahead or on `release_taskgraphs`).
+-/
 namespace ErdosVerif.C18
 open ErdosVerif.Model
-theorem placeholder : TState.virtual.val = 1 := rfl
+
+/-- **No ready task is starved**: every RELEASED task (in the traversal order) whose
+release time is within `time + lookahead` is offered; so is every PREEMPTED / EVICTED task. -/
+theorem ready_offered (g : GraphS) (ect : List (Nat × Int)) (time lookahead : Int) (retract rtg : Bool)
+    (L : List Nat) (h : GraphS.selectLoop g ect time lookahead retract rtg g.topo false [] = .ok L) :
+    ∀ n ∈ g.topo, ∀ t, g.task? n = some t →
+      (t.state = .released ∧ t.release ≤ time + lookahead ∨ t.state = .preempted ∨ t.state = .evicted) →
+      n ∈ L :=
+  GraphS.selectLoop_complete g ect time lookahead retract rtg g.topo false [] L h
+
+/-- **Never a completed, cancelled or running task; a scheduled task only under retraction.** -/
+theorem only_decidable_work (g : GraphS) (ect : List (Nat × Int)) (time lookahead : Int) (retract rtg : Bool)
+    (L : List Nat) (h : GraphS.selectLoop g ect time lookahead retract rtg g.topo false [] = .ok L) :
+    ∀ n ∈ L, n ∈ g.topo ∧ ∃ t, g.task? n = some t ∧
+      t.state ≠ .completed ∧ t.state ≠ .cancelled ∧ t.state ≠ .running ∧
+      (t.state = .scheduled → retract = true) := by
+  intro n hn
+  rcases GraphS.selectLoop_sound g ect time lookahead retract rtg g.topo false [] L h n hn with h | h
+  · simp at h
+  · exact h
+
+/-- **Increasing the lookahead only adds tasks to the offer.** -/
+theorem lookahead_mono (g : GraphS) (ect : List (Nat × Int)) (time l1 l2 : Int) (retract rtg : Bool)
+    (L1 L2 : List Nat) (hl : l1 ≤ l2)
+    (h1 : GraphS.selectLoop g ect time l1 retract rtg g.topo false [] = .ok L1)
+    (h2 : GraphS.selectLoop g ect time l2 retract rtg g.topo false [] = .ok L2) :
+    ∀ n ∈ L1, n ∈ L2 :=
+  GraphS.selectLoop_mono g ect time l1 l2 retract rtg rtg hl id g.topo false false [] [] L1 L2 id
+    (fun _ h => h) h1 h2
+
+/-- **Releasing whole task graphs only adds tasks to the offer.** -/
+theorem release_taskgraphs_mono (g : GraphS) (ect : List (Nat × Int)) (time l : Int) (retract : Bool)
+    (L1 L2 : List Nat)
+    (h1 : GraphS.selectLoop g ect time l retract false g.topo false [] = .ok L1)
+    (h2 : GraphS.selectLoop g ect time l retract true g.topo false [] = .ok L2) :
+    ∀ n ∈ L1, n ∈ L2 :=
+  GraphS.selectLoop_mono g ect time l l retract false true (Int.le_refl l) (fun h => by cases h) g.topo
+    false false [] [] L1 L2 id (fun _ h => h) h1 h2
+
+/-- `get_releasable_tasks` = VIRTUAL / SCHEDULED / PREEMPTED tasks all of whose parents are complete. -/
+theorem releasable_spec (g : GraphS) (n : Nat) :
+    n ∈ g.getReleasable ↔
+      n < g.tasks.size ∧
+      (g.stateOf n = .virtual ∨ g.stateOf n = .scheduled ∨ g.stateOf n = .preempted) ∧
+      ∀ p ∈ g.pars n, g.completeOf p = true :=
+  GraphS.getReleasable_spec g n
+
+/-- **Release on completion** (non-conditional task): exactly the non-cancelled
+children that are a join or have every parent complete, in child order. -/
+theorem release_on_completion (g : GraphS) (n : Nat) (finish : Int) (tape : List Draw) (t : TaskS)
+    (ht : g.task? n = some t) (hc : t.isComplete = true) (hnc : t.conditional = false)
+    (herr : (g.notifyCompletion n finish tape).err = none) :
+    (g.notifyCompletion n finish tape).released = (g.kids n).filter g.releasedBy ∧
+    (g.notifyCompletion n finish tape).cancelled = [] ∧
+    (g.notifyCompletion n finish tape).g = g ∧
+    (g.notifyCompletion n finish tape).tape = tape :=
+  GraphS.notify_nonconditional g n finish tape t ht hc hnc herr
+
+/-! ### non-vacuity: a chain A→B with A RELEASED at time 3 -/
+example :
+    let mk (nm : String) (st : TState) (rel : Int) : TaskS :=
+      { name := nm, conditional := false, terminal := false, prob := 1000,
+        strategies := [⟨0, false, 1, 4, []⟩], profile := 0, deadline := 10, state := st, release := rel }
+    let g : GraphS := ⟨"G", #[mk "A" .released 3, mk "B" .virtual (-1)], #[[1], []], #[[], [0]], [0, 1]⟩
+    GraphS.selectLoop g [(0, 7), (1, 11)] 3 0 false false g.topo false [] = .ok [0] ∧
+    GraphS.selectLoop g [(0, 7), (1, 11)] 3 10 false false g.topo false [] = .ok [0, 1] := by
+  exact ⟨rfl, rfl⟩
+
 end ErdosVerif.C18
